@@ -294,10 +294,38 @@ let csm (payload : string) : string =
       (List.length st.pending) (if st.shutdown then "1" else "0") (if st.closing then "1" else "0")
   | _ -> "bad"
 
+(* ---------------- C10: fail modes ---------------- *)
+let c10 (payload : string) : string =
+  (* <mode> <retries> <rr> srv;srv;...   srv = dials(0/1 string or -)/calls(comma list: ok<r> svc lost ctx dl or -) *)
+  match split_on ' ' payload with
+  | [m; r; rr; srvs] ->
+    let mode = (match m with "fast" -> Failfast | "try" -> Failtry | _ -> Failover) in
+    let parse_srv t = (match String.split_on_char '/' t with
+      | [d; c] ->
+        let dials = if d = "-" then [] else List.init (String.length d) (fun i -> d.[i] = '1') in
+        let calls = if c = "-" then [] else List.map (fun o ->
+          if String.length o > 2 && String.sub o 0 2 = "ok" then OOk (nat_of_int (int_of_string (String.sub o 2 (String.length o - 2))))
+          else match o with "svc" -> OSvc | "lost" -> OLost | "ctx" -> OCtx | "dl" -> ODeadline | _ -> failwith "outcome")
+          (String.split_on_char ',' c) in
+        { s_cached = false; s_dials = dials; s_calls = calls }
+      | _ -> failwith "srv") in
+    let servers = if srvs = "-" then [] else List.map parse_srv (String.split_on_char ';' srvs) in
+    let en = { servers = servers; rr = nat_of_int (int_of_string rr); attempts = [] } in
+    let res = xcall mode (nat_of_int (int_of_string r)) en in
+    let show_o o = (match o with OOk r -> "ok" ^ string_of_int (int_of_nat r) | OSvc -> "svc" | OLost -> "lost" | OCtx -> "ctx" | ODeadline -> "dl") in
+    let log = String.concat "," (List.map (fun (s, o) -> Printf.sprintf "s%d:%s" (int_of_nat s) (show_o o)) res.x_env.attempts) in
+    let err = (match res.x_err with
+      | None -> "ok:" ^ (match res.x_reply with Some r -> string_of_int (int_of_nat r) | None -> "?")
+      | Some XSvc -> "svc" | Some XLost -> "lost" | Some XCtx -> "ctx" | Some XDeadline -> "dl"
+      | Some XDial -> "dial" | Some XNoServer -> "noserver" | Some XUnavailable -> "unavailable") in
+    Printf.sprintf "[%s] %s" log err
+  | _ -> "bad"
+
 let () =
   let prop = Sys.argv.(1) in
   let f = match prop with
     | "C12" -> c12
+    | "C10" -> c10
     | "C03" | "C05" | "C06" -> csm
     | "C18" -> c18
     | "C11" -> c11
